@@ -392,7 +392,10 @@ class Executor:
         if m.name in self.repo.modules:
             r = self.repo.resolve(m.name, attr)
             return self.wrap_resolved(r, attr, node)
-        if m.name.split(".")[0] in ("sqlalchemy", "operator", "itertools", "uuid", "typing", "dataclasses"):
+        # foreign modules: a call into them yields an unmodelled value (Opaque) unless a contract module gives it a meaning.  random / secrets /
+        # time / os were added after seeded change C19-agent4 (uuid4 replaced by random.getrandbits): nothing is known about what they return,
+        # in particular not that it was never returned before
+        if m.name.split(".")[0] in ("sqlalchemy", "operator", "itertools", "uuid", "typing", "dataclasses", "random", "secrets", "time", "os"):
             return ModuleVal(full)
         raise OutsideSubset(f"module attribute {full}", node)
 
